@@ -139,6 +139,13 @@ FRAGMENTS = [
 
 #: fragments that make sense for any rank (run on 1-D, 2-D and 3-D inputs)
 FRAGMENTS_ANY = [
+    "r = t.sum().view(1) + t.flatten()[:1]",
+    "r = t.flatten()[0].reshape(1, 1) * t.flatten()[:2]",
+    "r = t.mean().view(-1)",
+    "r = t[(None,) * 2] + t.flatten()[0]",
+    "k = max(t.dim() - 1, 1)\nr = t.flatten()[:1][(None,) * k] * t",
+    "s0 = t.flatten()[0]\nr = torch.cat([s0.unsqueeze(-1), t.flatten()[:2]], dim=-1)",
+    "s0 = t.sum().expand(())\nr = s0.unsqueeze(-1) + t.flatten()[:1]",
     "y = torch.zeros((2, *t.shape))\ny[0] = t.unsqueeze(0)\ny[1] = t.unsqueeze(0).unsqueeze(0) * 2\nr = y",
     "idx = [1, 0]\nr = t[idx] if t.shape[0] > 1 else t",
     "y = t.clone()\nidx = [0]\ny[idx] = 5\nr = y",
